@@ -12,8 +12,7 @@ def lens(lo, hi, extra=None):
 STREAM = ['_ZN4llvm11raw_ostream5writeEPKcm=vf_os_write', '_ZN4llvm11raw_ostream5writeEh=vf_os_putc']
 OBLIGATIONS = [
     dict(name='N2.lexer-step', harness='C19/h_lexer.cpp', entry='harness_lexer', tus=['lib/Ninja/Lexer.cpp'],
-         noinline=[r'Lexer3lexE'], expect_functions=[r'Lexer3lexE'], unwind=4, unwind_is_oracle=True, cxxflags=['-DVF_SM_KEY=2'],   # a shallow bound: the repaired code needs recursion depth 2, the unrepaired one exceeds every bound
-        
+         noinline=[r'Lexer3lexE'], expect_functions=[r'Lexer3lexE'], unwind=10, unwind_is_oracle=True,
          params_quick=lens(0, 4), params_thorough=lens(0, 6), unwind_thorough=14, timeout=900),   # token extents in every lexing mode (same harness as C19-H1)
     dict(name='N1.keywords', harness='C19/h_lexer.cpp', entry='harness_lexer', tus=['lib/Ninja/Lexer.cpp'],
          noinline=[r'Lexer3lexE'], expect_functions=[r'Lexer3lexE'], unwind=10, cxxflags=['-DVF_IDENT=1'],
